@@ -18,6 +18,7 @@ EXTRA_LINES = ["Intro", "a | b", "--- | ---", "1 | 2", "--|--", "| x | y |", "|-
                "* z", "=", "==", "---", "===", "~~~", "    code", "\tcode", "a\x0bb", "a\x0cb", "a\x1cb", "a b", "trailing ", " leading", "$x$", "[^1]", "[^1]: n",
                "*[A]: abbr", "A", ">! s", "~sub~", "^sup^", "==m==", "^^i^^", "<b>", "&amp;", "[l](u)", "![i](u)", "`c`", "``c` d``", "word",
                # autolinks and raw constructs after plain text whose first character after "<" is not a letter
+               "see www.example.com/docs for", "x www.a.b y", "go WWW.E.COM", "ftp://a.b/c d", "[the documentation ", "](/docs) tail", "![alt ", "](/i.png)", "first", "\t  ", "last", " \t ", "*em ", "* x", "`code ", "` y",
                "mail <1abc@example.com> now", "x <_me@e.com> y", "a <+tag@e.com>", "see <#h@e.com>", "t <9@a.b> u", "n <.a@b.c>", "b <!-- c --> d", "p <?php ?> q", "z </a> w", "k <!DOCTYPE x> l", "m <![CDATA[x]]> n"]
 
 
@@ -120,8 +121,9 @@ def api_part(ctx):
                               [d, {"plugins": list(B), "escape": esc}], [d, {"plugins": list(A) + ["speedup"], "escape": esc}]])
                 # an earlier call with the same plugins in an order outside the claim (speedup first): not compared itself
                 plans.append([["warm up\n", {"plugins": ["speedup"] + list(A), "escape": esc}], [d, {"plugins": list(A) + ["speedup"], "escape": esc}], [d, {"plugins": list(A), "escape": esc}]])
-    ctx.rng.shuffle(plans)
-    for calls in plans[: (12 if ctx.quick() else len(plans))]:
+    if ctx.quick():
+        plans = [pl for pl in plans if pl[-1][0] in docs[:2]]          # every pair, both escape settings, both plan kinds, two documents
+    for calls in plans:
         extra = []
         for _ in range(ctx.rng.randint(0, 4)):
             P = list(ctx.rng.choice(bases)) + (["speedup"] if ctx.rng.random() < 0.5 else [])
